@@ -832,3 +832,58 @@ func (c *Check) importAcceptsEveryStatus(rule string) {
 		c.Held(rule, "import-accepts-every-status", "", fmt.Sprintf("%d status comparisons in %d functions run on genesis import: no named status value leads to a panic", nCmp, len(fns)))
 	}
 }
+
+// errorsIsArgumentOrder: errors.Is(err, target) asks whether err is (or wraps) target. With the arguments the other way
+// round — a package-level sentinel first, the error at hand second — the answer is false for every wrapped error (the
+// store's "not found" is returned wrapped), so the branch that forgives the sentinel is never taken: an absent entry turns
+// into a failing block hook, proposal or export.
+func (c *Check) errorsIsArgumentOrder(rule string) {
+	p := c.p
+	n, bad := 0, 0
+	isSentinel := func(v ssa.Value) bool {
+		if u, ok := v.(*ssa.UnOp); ok && u.Op == token.MUL {
+			_, isG := u.X.(*ssa.Global)
+			return isG
+		}
+		return false
+	}
+	// where a dead forgiving branch fails a transaction, a block hook, a proposal or an export (not the query servers)
+	ctx := p.Contexts()
+	var roots []*ssa.Function
+	for _, l := range [][]*ssa.Function{ctx.Tx, ctx.Block, ctx.Ante, ctx.Genesis, ctx.Proposal} {
+		roots = append(roots, l...)
+	}
+	for _, mod := range []string{"bitcoin", "relayer", "goat", "locking"} {
+		if f := p.byName["x/"+mod+"/module.ExportGenesis"]; f != nil {
+			roots = append(roots, f)
+		}
+	}
+	reach, _ := p.CG().Reach(roots, nil)
+	var fns []*ssa.Function
+	for f := range reach {
+		fns = append(fns, f)
+	}
+	sort.Slice(fns, func(i, j int) bool { return FuncKey(fns[i]) < FuncKey(fns[j]) })
+	for _, f := range fns {
+		if p.isGenerated(f) || !isProdPkgFn(f) {
+			continue
+		}
+		for _, ci := range callsIn(f) {
+			cf := calleeFunc(ci.Common())
+			if cf == nil || cf.FullName() != "errors.Is" || len(ci.Common().Args) != 2 {
+				continue
+			}
+			n++
+			a := ci.Common().Args
+			if isSentinel(a[0]) && !isSentinel(a[1]) {
+				bad++
+				c.touch(f)
+				c.Violated(rule, "errors.Is-argument-order @ "+FuncKey(f), p.InstrPos(ci), "errors.Is("+p.R(f).E(a[0])+", "+p.R(f).E(a[1])+"): the sentinel comes first, so a wrapped error never matches and the forgiving branch is dead")
+			}
+		}
+	}
+	if bad == 0 {
+		c.Held(rule, "errors.Is-argument-order", "", fmt.Sprintf("%d errors.Is calls: the error at hand first, the sentinel second", n))
+	}
+	c.Floor(rule, "errors.Is calls", n, 3)
+}
